@@ -48,16 +48,11 @@ void FullHmmTransitionMatrix::setTransitionProbabilities(const Matrix<double>& m
   for (size_t i = 0; i < mat.getNumberOfRows(); ++i)
   {
     vSimplex_[i].setFrequencies(mat.row(i));
-    ParameterList pls = vSimplex_[i].getParameters();
-    for (size_t j = 0; j < pls.size(); ++j)
-    {
-      Parameter* p = pls[j].clone();
-      p->setName(TextTools::toString(i + 1) + "." + p->getName());
-      pl.addParameter(p);
-    }
+    pl.addParameters(vSimplex_[i].getParameters()); // these names already carry the "<row>." namespace
   }
 
   matchParametersValues(pl);
+  upToDate_ = false;
 }
 
 
